@@ -396,12 +396,13 @@ theorem storeApiKey_fields (s : State) (name : String) (v : Option String) :
     exact ⟨fun _ => ⟨h1, this.1, this.2⟩, (fun h => by cases h), .inr this.2, h3, h5, h6⟩
   | false =>
     simp only [Bool.false_eq_true, if_false]
-    refine ⟨?_, ?_, .inl rfl, h3, h5, h6⟩
+    refine ⟨?_, ?_, .inl (by first | rfl | trivial), h3, h5, h6⟩
     · first | trivial | (intro h; cases h)
     · first
-        | exact fun _ => ⟨rfl, rfl, h7 hr⟩
-        | exact ⟨rfl, rfl, h7 hr⟩
-        | (intro _; exact ⟨rfl, rfl, h7 hr⟩)
+        | exact ⟨by first | rfl | trivial, by first | rfl | trivial, h7 hr⟩
+        | (intro _; exact ⟨by first | rfl | trivial, by first | rfl | trivial, h7 hr⟩)
+        | exact h7 hr
+        | (intro _; exact h7 hr)
 
 theorem storeApiKey_ro (s : State) (name : String) (v : Option String) (h : s.primaryRO = true) :
     storeApiKey s name v = ({ s with extBound := s.bound }, false) := by
